@@ -29,6 +29,7 @@ func Harness_C14_PlanAtEndBlock() {
 	opKnown := keeper.VerifHasOperator(ctx, k, next.OperatorAddress)
 	keyKnown := keeper.VerifHasKey(ctx, k, next)
 	full := keeper.VerifCount(ctx, k) >= int(p0.MaxValidators)
+	same := keeper.VerifSameRecord(ctx, k, next) // the plan re-appoints a stored validator unchanged
 
 	ups, err := EndBlocker(ctx, k)
 
@@ -46,7 +47,7 @@ func Harness_C14_PlanAtEndBlock() {
 	keeper.VerifReach("plan height")
 	// the three recorded defects of the plan mechanism are regions of their own
 	if keeper.VerifKnown("C14-a", opKnown && !keyKnown) || keeper.VerifKnown("C14-b", keyKnown && !opKnown) ||
-		keeper.VerifKnown("C14-c", full && !opKnown) || keeper.VerifKnown("C14-d", opKnown && keyKnown) {
+		keeper.VerifKnown("C14-c", full && !opKnown) || keeper.VerifKnown("C14-d", opKnown && keyKnown && !same) {
 		keeper.VerifReach("known-finding region")
 	}
 	keeper.VerifAssert("block processing does not fail because of the plan", err == nil)
